@@ -12,6 +12,10 @@
 (*   excl(g, tr, p, ok, id, err)   register_exclusive                      *)
 (*   snap(ids, ok, id, err, recs, bytr, groups)   snapshot_for_ids         *)
 (*   snapall(recs, bytr, groups)                  snapshot_all             *)
+(*   specs(items, ok, id, err, recs, bytr, groups)   SeedSnapshot::        *)
+(*        from_seed_specs; items = the specs flattened in order            *)
+(*   pseeds(items, ok, id, err, recs, bytr, groups)  SeedSnapshot::        *)
+(*        from_probability_seeds                                           *)
 (* The abstract registry `reg` is advanced by the operators of             *)
 (* SeedRegistry.tla themselves; every reply and every snapshot is compared *)
 (* with what they yield, and RegOK / Extends (identities never recycled)   *)
@@ -61,6 +65,17 @@ Judge(e, R) ==
          LET o == SnapshotForIds(R, ToSet(e.ids)) IN
          [reg |-> R, why |-> IF Reply(e) # o.ret THEN "snapshot-reply-differs"
                              ELSE IF o.ret.ok THEN WhySnapshot(e, R, o.ids) ELSE ""]
+    [] e.ev = "specs" ->          \* SeedSnapshot::from_seed_specs on its own fresh registry
+         LET o == FromSeedSpecs(e.items) IN
+         [reg |-> R, why |-> IF Reply(e) # o.ret THEN "from-seed-specs-reply-differs"
+                             ELSE IF ~o.ret.ok THEN ""
+                             ELSE IF ~RegOK(o.reg) THEN "registry-invariant"
+                             ELSE WhySnapshot(e, o.reg, DOMAIN o.reg.records)]
+    [] e.ev = "pseeds" ->         \* SeedSnapshot::from_probability_seeds (a map: each triple once)
+         LET o == StaticAll(EmptyReg, SetToSortSeq(ToSet(e.items), LAMBDA x, y : x.tr < y.tr)) IN
+         [reg |-> R, why |-> IF Reply(e) # o.ret THEN "from-probability-seeds-reply-differs"
+                             ELSE IF ~o.ret.ok THEN ""
+                             ELSE WhySnapshot(e, o.reg, DOMAIN o.reg.records)]
     [] e.ev = "snapall" ->
          [reg |-> R, why |-> WhySnapshot(e, R, SnapshotAll(R).ids)]
     [] OTHER -> [reg |-> R, why |-> "unknown-event"]
